@@ -173,7 +173,7 @@ impl Property for C14 {
     fn cases(&self, tier: Tier) -> usize {
         match tier {
             Tier::Quick => 80_000,
-            Tier::Thorough => 300_000,
+            Tier::Thorough => 4_000_000,
         }
     }
     fn strategy(&self, _tier: Tier) -> BoxedStrategy<C14Case> {
